@@ -336,7 +336,7 @@ def build(tier, seed):
             (("A",), 2, 2, "fixed", "32...126", (32, 126), "yield", 1, None),
             (("A", "B", "C"), 1, 2, "delimited", None, None, "yield", 1, None),
             (("A", "B"), 2, 3, "delimited", None, None, "writer", 2, None),
-            (("C",), 2, 4, "delimited", None, None, "continue", 1, None),
+            (("C",), 1, 4, "delimited", None, None, "continue", 1, None),
         ]
     for fkeys, ncheck, nrows, fmt, at, allowed, mode, runs, ragged in conf:
         mk, rp = make(fkeys, ncheck, nrows, fmt, at, allowed, mode, runs, ragged)
